@@ -36,7 +36,10 @@ _operand = st.one_of(
     st.tuples(st.just("longer"), st.integers(1, 5)),
     st.tuples(st.just("repeat"), st.integers(1, 255), st.integers(1, 6)),
     st.tuples(st.just("lit"), gen.cbytes(12).map(lambda b: b.hex())),
+    # lengths at and around typical buffer sizes
+    st.tuples(st.just("fill"), st.integers(33, 126), st.sampled_from([15, 16, 17, 31, 32, 33, 62, 63, 64, 65, 66, 127, 128, 129, 255, 256, 257, 511, 512, 513, 1023, 1024, 1025])),
 ).map(list)
+SIZES = [15, 16, 17, 31, 32, 33, 62, 63, 64, 65, 66, 127, 128, 129, 255, 256, 257, 511, 512, 513]
 
 
 @st.composite
@@ -50,7 +53,7 @@ def strategy_(draw):
         elif o == "resize":
             ops.append([o, draw(st.sampled_from(["zero", "less", "same", "more"])), draw(st.integers(0, 1000))])
         elif o == "print":
-            ops.append([o, draw(st.integers(0, 1000)), draw(st.sampled_from(["lit", "s", "li", "mix", "pct", "pct"])), draw(_operand), draw(st.integers(-1000, 1000))])
+            ops.append([o, draw(st.integers(0, 1000)), draw(st.sampled_from(["lit", "s", "li", "mix", "pct", "pct", "wli", "ws"])), draw(_operand), draw(st.integers(-1000, 1000))])
         else:
             ops.append([o])
     return {"init": init.hex(), "ops": ops}
@@ -86,6 +89,8 @@ def resolve(model, opd):
         return bytes([opd[1]]) * opd[2]
     if k == "lit":
         return bytes.fromhex(opd[1])
+    if k == "fill":
+        return bytes([opd[1] if opd[1] != 37 else 38]) * opd[2]
     raise HarnessBug("operand " + k)
 
 
@@ -177,6 +182,14 @@ def run_case(ctx, case):
                 fmt, args, text = b"%s%% of %li%%x", ["s:" + s.hex(), "i:%d" % op[4]], s + b"% of " + (b"%d" % op[4]) + b"%x"
             elif op[2] == "li":
                 fmt, args, text = b"%li;", ["i:%d" % op[4]], b"%d;" % op[4]
+            elif op[2] == "wli":
+                # one conversion that expands to exactly w characters (zero-padded), w at buffer-size boundaries
+                w = SIZES[abs(op[4]) % len(SIZES)]
+                fmt, args, text = b"%%0%dli|" % w, ["i:%d" % op[4]], (b"%%0%dd|" % w) % op[4]
+            elif op[2] == "ws":
+                w = SIZES[abs(op[4]) % len(SIZES)]
+                s = s[:w]
+                fmt, args, text = b"[%%%ds]" % w, ["s:" + s.hex()], b"[" + b" " * (w - len(s)) + s + b"]"
             else:
                 fmt, args, text = b"a%sb%lic", ["s:" + s.hex(), "i:%d" % op[4]], b"a" + s + b"b%dc" % op[4]
             if not fmt:
